@@ -85,6 +85,12 @@ CLAIMED = {
         note="Does not decide which tokens are selected for editing; the opt-in native path (sqlfluffrs) is outside the analysed tree. Known finding: the documented snake policy inserts underscores. " + TRUST,
         design_ref="DESIGN.md §3 C15",
     ),
+    "C17": dict(
+        technique="static analysis: role discovery by def-use (rules loop, pass loop, working tree, fix switch); CFG path obligations between adoption sites, flag assignments and pass-loop exits (alias-aware guard atoms); must-pass of crawl / cannot-fix branch per iteration; reaching-definition independence of the iterated rule list from per-pass state",
+        text="Decides (partial claim) that lint_fix_parsed returns a tree only after a complete pass over every fix-capable rule that adopted nothing, or the saved tree: every exit reachable from an adoption is blocked by a flag the adoption sets and nothing resets; loop-limit exhaustion never falls through while fixing; no rule that can fix is skipped and the rule list does not depend on per-pass state.",
+        note="Does not decide that rules do not undo each other, the early-stop safeguards (which leave a fix pending by design), post->main phase interaction, is_fix_compatible declarations, re-lex/re-parse stability (C12/C02) -- idempotence as a whole is NOT decided. Rollback: C18 R18b; adoption validity: C13 R13a; written text: C30/C11/C26. " + TRUST,
+        design_ref="DESIGN.md §9.7",
+    ),
     "C18": dict(
         technique="static analysis: path-sensitive gate proof over the CFG (relevant-branch DNF dataflow) with suppression-filter kind inference of counts; interprocedural lifting of sinks to call sites",
         text="Decides, for every call that can produce or persist fixed text (fix_string / persist_tree / persist_changes outside their owning "
@@ -191,6 +197,12 @@ CLAIMED = {
         note="Does not decide that a cached match equals a fresh one under a different terminator stack (key omits terminators, no witness), the unparsable claims of greedy parse modes under pruning, positions starting on non-code tokens with allow_gaps=False, hash-order independence beyond next_match, or that BaseGrammar.copy() re-keys (no two different options share a key in any bundled dialect today). Hints are the values of the declared simple() methods obtained by importing the dialect modules in a subprocess; no SQL is lexed or parsed. " + TRUST,
         design_ref="DESIGN.md §3 C06",
     ),
+    "C07": dict(
+        technique="static analysis: DNF of the guard conditions of every assert/raise in TemplatedFile.__init__ (and helpers it calls), loop-carried position / previous-element recognition by reaching definitions, must-pass coverage from caller-provided stores to exit; whole-tree single-writer / in-place-mutation scan by receiver class incl. local aliases and callees; def-use provenance classification of every TemplatedFile construction site, generator yields and the variant re-mapper",
+        text="Decides (partial claim) that the two tiling clauses are enforced at construction and cannot be bypassed: the constructor refuses, by equality tests over every element on every path, raw slices not tiling the stored source 0..len and rendered slices not tiling the stored rendered text 0..len; lists/texts are stored only there and never mutated; every construction site is unsliced or passes both lists and a non-None rendered text of one provenance; the variant generator keeps trace, text and list together and the re-mapper emits one slice per input slice with the rendered span untouched.",
+        note="Does not decide source slices in bounds/ordered (variant re-mapping arithmetic), literal text equality, non-negative widths, an empty rendered list over non-empty text (not rejected; no bundled producer), aliases kept by slicer objects; asserts assumed enabled (no python -O). Relies on C08 R08b, C09 R09d/e, C31 R31b. " + TRUST,
+        design_ref="DESIGN.md §9.7",
+    ),
     "C08": dict(
         technique="static analysis: keyword-table agreement of every Jinja environment construction with the 'no markup' fast-path test (regex AST, finite language covers the default openers), def-use chain process -> slice_file -> analyzer -> tracer -> trace() for the rendered text, config-read closure vs. fast-path guard",
         text="Decides that every Jinja environment built in core and plugins keeps default delimiters / no line statements / keep_trailing_newline=True, that the early identity return of JinjaTemplater.process excludes every file containing '{{', '{%' or '{#' and every configured macro/library loader, and that TemplatedFile.templated_str is render_func(raw_str) of the unmodified source (never the instrumented trace template) for jinja and dbt.",
@@ -242,8 +254,6 @@ CLAIMED = {
 }
 
 NOT_APPLICABLE = {
-    "C07": "tiling/bounds/text-equality of slice maps are relations between run-time integers and strings; no static structural footprint (DESIGN §5)",
     "C12": "token gluing depends on adjacent token texts and each dialect's ordered regex table; needs language-level reasoning over 28 lexers (DESIGN §5)",
     "C16": "query-result equivalence under rewriting needs execution or a SQL semantics; no static counterpart in reach (DESIGN §5)",
-    "C17": "idempotence is a fixpoint property of all enabled rules over run-time trees; loop safeguards exist by shape but do not imply it (DESIGN §5)",
 }
